@@ -44,7 +44,7 @@ RULE = (
 ASSUMPTIONS = [
     "the expected bytes are derived from the record list held by the worklist when the save happens (the records "
     "themselves are C09's business); records contain no CR/LF (the generator does not produce such text)",
-    "characters outside Latin-1, upper-case or compound extensions (x.GWL, x.gwl.txt), relative paths and non-ASCII "
+    "characters outside Latin-1, upper-case extensions (x.GWL), relative paths and non-ASCII "
     "file names are not generated: the statement does not decide them",
     "durability / crash consistency of the file system is not part of the property",
     "the audit hook sees the CPython-level events open / os.remove / os.rename / os.truncate / os.mkdir / os.rmdir / "
@@ -56,7 +56,9 @@ CLASSES = ("base", "evo", "fluent")
 MODES = ("save", "save_twice", "with", "with_exc", "with_preloaded", "with_then_save", "badname_save", "badname_with")
 PRES = ("absent", "longer", "shorter", "same")
 GOOD_NAMES = ("wl.gwl", "a b.gwl", "x.y.gwl", "w.gwl", "worklist-01_final.gwl")
-BAD_NAMES = ("wl.txt", "wl", "wlgwl", "wl.gw", "wl.csv", "gwl", "wl.g.w.l", "wl.gwl_"[:2] + ".lwg")
+BAD_NAMES = ("wl.txt", "wl", "wlgwl", "wl.gw", "wl.csv", "gwl", "wl.g.w.l", "wl.gwl_"[:2] + ".lwg",
+             # ".gwl" occurs in the name but is not its extension
+             "wl.gwl.txt", "wl.gwlx", "notes.gwl_old.csv", "wl.gwl.bak")
 # printable Latin-1 without ';' (field separator), CR/LF and the no-break space (stripped by comment())
 ALPHA = "abcdefgxyzABCXYZ0123456789 _-.,:()[]%/+*#=<>!?'\"" + "µäöüÄÖÜßÿéèêñçøåÅæ°±²³¼½¾×÷¡¿£¥§©®ª«»¬¶·¸¹º¤¦¨¯´ÐÞþðÿ"
 
